@@ -103,7 +103,7 @@ def expand(t, T, depth=0):
     if op == "join":
         elems = list_elements(t.a[0])
         sep = t.a[1].a[0] if t.a[1].op == "str" else None
-        return [("rep", [expand(e, T, depth + 1) for e in elems], sep)]
+        return [("rep", [expand(e, T, depth + 1) for e in elems], sep, t.a[0])]
     if op == "fmt_append":
         return expand(t.a[0], T, depth + 1) + expand(t.a[1], T, depth + 1)
     if op == "fmtbuf":
